@@ -200,6 +200,75 @@ func runC01(env *Env) {
 			rep.Violate("C01-token-game", cs, o.problem+"; log: "+logString(o.log))
 		}
 	}
+	// many tokens through one chain of nodes at the same time (more than a node's inbox holds): every token passes every
+	// node exactly once — exclusive merge, exclusive split, parallel gateway with one way in and out, sub-process, task,
+	// end event (no inclusive gateway in the chain: it would merge the tokens of one fork, the open finding's mechanism)
+	for _, n := range []int{3, 12} {
+		for _, v0 := range []bool{true, false} {
+			if rep.Saturated() {
+				break
+			}
+			cs := fmt.Sprintf("%d tokens through merge -> exclusive split -> parallel 1:1 -> sub-process -> task -> end, v0=%v", n, v0)
+			env.Current(cs)
+			p := &Prog{}
+			p.Node("start", "start")
+			p.Node("par", "F")
+			p.Node("xor", "M")
+			x := p.Node("xor", "X")
+			p.Node("xor", "M2")
+			p.Node("par", "P")
+			sn := p.Node("sub", "S")
+			sn.Sub = &Prog{nflow: 900}
+			sn.Sub.Node("start", "ss")
+			sn.Sub.Node("end", "se")
+			sn.Sub.Flow("ss", "se", "")
+			p.Node("task", "T")
+			p.Node("end", "end")
+			p.Flow("start", "F", "")
+			for i := 0; i < n; i++ {
+				p.Flow("F", "M", "")
+			}
+			p.Flow("M", "X", "")
+			p.Flow("X", "M2", "v0")
+			x.Default = p.Flow("X", "M2", "").ID
+			p.Flow("M2", "P", "")
+			p.Flow("P", "S", "")
+			p.Flow("S", "T", "")
+			p.Flow("T", "end", "")
+			defs, err := ParseDefs(p.XML(""))
+			must(err)
+			in, err := StartInst(defs, InstOpt{Vars: map[string]any{"v0": v0}, Buf: 1024})
+			must(err)
+			rep.Evaluations++
+			rep.Nontrivial++
+			rep.Count("many_tokens_one_chain")
+			answered := 0
+			for answered < n && in.Answer("T", tmoStep) {
+				answered++
+			}
+			done := in.WaitCease(tmoStep)
+			l := in.Log()
+			bad := ""
+			if answered != n || !done {
+				bad = fmt.Sprintf("%d of %d requests of T could be answered, instance completed: %v", answered, n, done)
+			}
+			for _, node := range []string{"M", "X", "M2", "P", "S", "T", "end"} {
+				if v := countEv(l, "visit", node); v != n && bad == "" {
+					bad = fmt.Sprintf("node %s was reached %d times, expected %d", node, v, n)
+				}
+			}
+			if t := countEv(l, "task", "T"); t != n && bad == "" {
+				bad = fmt.Sprintf("T was requested %d times, expected %d", t, n)
+			}
+			if e := countEv(l, "error", "*"); e > 0 && bad == "" {
+				bad = fmt.Sprintf("%d error traces", e)
+			}
+			if bad != "" {
+				rep.Violate("C01-token-game", cs, bad+"; log: "+logString(l))
+			}
+			in.Close()
+		}
+	}
 	// a task with 1..4 conditional outgoing flows (each to a task and an end event of its own), every truth
 	// assignment, two listing orders: exactly the true flows get a token, the task is requested once
 	var litems []string
